@@ -156,6 +156,8 @@ def candidates(gen, rng):
         (f"(Definition/{nm()}/#, ({p()}, {p()}))", False, "/# name without placeholder"),
         (f"(Definition/{nm()}/#, ({vn}/#, {rng.choice(gen.values).name}/#))", False, "two placeholders"),
         (f"(Definition/{nm()}, ({vn}/#, {p()}))", False, "placeholder without /# name"),
+        (f"(Definition/{nm()}, ({vn}/#, ({rng.choice(gen.values).name}/#, {p()})))", False, "two placeholders without /# name"),
+        (f"(Definition/{nm()}/#, ({vn}/#, {p()}, ({vn}/#)))", False, "the same placeholder twice"),
         (f"(Definition/{nm()}/#, ({p()}/#))", False, "placeholder on a tag that takes no value"),
         (f"(Definition/{nm()}/#)", False, "/# name without content"),
     ]
@@ -192,7 +194,8 @@ def check_candidates(schema, cands, rec, label):
                 first_contents[name] = str(dd.defs[name].contents)
         else:
             if added:
-                rec.violation(f"definition violating a rule ({why}) was accepted", case)
+                rec.violation(f"definition violating a rule ({why}) was accepted", case,
+                              key="placeholders-without-pound-name" if why == "two placeholders without /# name" else None)
             elif not any(i["code"] == "DEFINITION_INVALID" and i["severity"] == ErrorSeverity.ERROR for i in issues):
                 rec.violation(f"rejected definition ({why}) reported without DEFINITION_INVALID", case)
     # the same verdict through the other ways of handing definitions to a dictionary
@@ -210,7 +213,8 @@ def check_candidates(schema, cands, rec, label):
                 continue
             got = len(d2.defs) == 1 and (form == "dict-of-dict" or not d2.issues)
             if got != accept:
-                rec.violation("a definition is accepted through one way of building the dictionary and not through another", case)
+                rec.violation("a definition is accepted through one way of building the dictionary and not through another", case,
+                              key="placeholders-without-pound-name" if why == "two placeholders without /# name" else None)
     # duplicates (case-insensitive) are reported and ignored
     for name in list(first_contents)[:3]:
         disp = dd.defs[name].name
